@@ -259,6 +259,15 @@ def splitZone (cfg : Cfg) (badFormats : List FormatKey) (badTypes : List TypeKey
       else some (ttz, none)
     | none => some (ttz, none)
 
+/-- The formats `get_info` excludes for the time and zone once the date is known: the other one,
+    except after a truncated date. -/
+def badFormatsOf (fmt : Option FormatKey) (typ : TypeKey) : List FormatKey :=
+  if typ = .truncated then []
+  else match fmt with
+    | some .basic => [.extended]
+    | some .extended => [.basic]
+    | none => []
+
 /-- `TimePointParser.get_info`. -/
 def getInfo (cfg : Cfg) (s : List Char) : Option Info :=
   match splitOnChar timeDesignator s with
@@ -280,12 +289,7 @@ def getInfo (cfg : Cfg) (s : List Char) : Option Info :=
     match dres with
     | none => none
     | some (fmt, typ, dexpr, denv, dtrunc) =>
-      let badFormats : List FormatKey :=
-        if typ = .truncated then []
-        else match fmt with
-          | some .basic => [.extended]
-          | some .extended => [.basic]
-          | none => []
+      let badFormats : List FormatKey := badFormatsOf fmt typ
       let badTypes : List TypeKey := if dtrunc then [] else [.truncated]
       match splitZone cfg badFormats badTypes ttz with
       | none => none
